@@ -53,6 +53,7 @@ pub fn in_world<T: Send, F: FnOnce() -> T + Send>(hseed: u64, f: F) -> T {
             .stack_size(64 << 20)
             .spawn_scoped(s, move || {
                 set_thread_seed(hseed);
+                crate::clock::enable_on_this_thread();
                 f()
             })
             .expect("spawn world thread")
